@@ -29,8 +29,24 @@ func main() {
 	dump := flag.Bool("dump", false, "print every obligation")
 	noSelf := flag.Bool("no-selftest", false, "thorough tier: skip the seeded-mutant self-test")
 	ssaDump := flag.String("ssa", "", "debug: print the SSA of module functions whose name contains this string")
+	dumpNames := flag.String("dump-names", "", "maintenance: write the declaration baseline of the loaded tree (names, types, signatures) to this file")
 	pathsDump := flag.String("paths", "", "debug: print the access path of every value of module functions whose name contains this string")
 	flag.Parse()
+	if *dumpNames != "" {
+		p, err := core.Load(*repo)
+		if err != nil {
+			fatal("%v", err)
+		}
+		b, err := p.DumpNames()
+		if err != nil {
+			fatal("%v", err)
+		}
+		if err := os.WriteFile(*dumpNames, append(b, '\n'), 0o644); err != nil {
+			fatal("%v", err)
+		}
+		fmt.Printf("wrote %s\n", *dumpNames)
+		return
+	}
 	if *pathsDump != "" {
 		p, err := core.Load(*repo)
 		if err != nil {
